@@ -40,6 +40,23 @@ def build(ctx):
     em('DRW_lock', r'void\s+lock\s*\(\s*\)')
     em('DRW_try_lock', r'bool\s+try_lock\s*\(\s*\)')
     em('DRW_unlock', r'void\s+unlock\s*\(\s*\)')
+    # RWLockImpl methods that the distributed lock calls but that are not among the slot methods under contract (e.g. a helper a change
+    # introduced): their bodies are extracted from rw_lock_impl.h with the same atomic rewrites and verified INLINE (no contract)
+    extra = []
+    called = set()
+    for fn in os.listdir(ctx.gen):
+        if fn.startswith('DRW_'):
+            called |= set(re.findall(r'RW_(\w+)\(g_self\)', open(os.path.join(ctx.gen, fn)).read()))
+    RF = 'dispenso/detail/rw_lock_impl.h'
+    for m in sorted(called - set(METHODS) - {'readerRelease', 'lock_upgrade', 'lock_downgrade', 'try_lock_shared'}):
+        full = r.text(RF)
+        mm = re.search(r'(?:inline\s+)?(bool|void|int)\s+(?:RWLockImpl::)?' + re.escape(m) + r'\s*\(\s*\)\s*(?:const\s*)?(?:noexcept\s*)?(?=\{)', full)
+        if not mm:
+            raise X.ExtractionError('DistributedRWLockImpl calls RWLockImpl::%s, whose definition was not found in %s' % (m, RF))
+        pc = r.function(RF, r'(?:inline\s+)?' + mm.group(1) + r'\s+(?:RWLockImpl::)?' + re.escape(m) + r'\s*\(\s*\)')
+        ctx.emit('RWX_' + m + '.body.inc', pc, subs=c22.opt(c22.W))
+        extra.append('static %s RW_%s(RWLockImpl* self)\n#include "RWX_%s.body.inc"\n' % (mm.group(1), m, m))
+    ctx.emit_text('c23_extra_methods.inc', '/* RWLockImpl methods called by the distributed lock that are not under contract: extracted and inlined */\n' + ''.join(extra))
     S = 'specs/c23_drwlock.c'
     units = []
     rep = ['RW_' + m for m in METHODS]
